@@ -18,6 +18,8 @@ def run(ctx):
     ctx.trusted += ["the numeric layer (utility values) is an oracle; -inf entries (DropQuery, SubSamplingWrapper) are ordinary values"]
     ctx.assume += ["selection mode per strategy: sampling (positive mass) for RandomSampling, Badge, Falcun, RegressionTreeBasedAL[random]; max for all others"]
     ctx.coq_props()
+    from ..skel import check_skeleton_table
+    check_skeleton_table(ctx)
     entries, cases, outs = collect(ctx, "c02")
     tcases, tmeta = [], []
     for case, out in zip(cases, outs):
